@@ -1,0 +1,58 @@
+//go:build verif
+
+package rootmulti
+
+// Contracts checked by /verif/govc (contract-based deductive verification).
+// Comment-only: with the `verif` tag off this file is not even parsed.
+
+// interface views used by commitStores
+//@ pure skName(k Iface) Str
+//@ pure stType(s Iface) int
+//@ ghost commitN int
+//@ ghost lastCommitted Iface
+//@ pure cidVersion(s Iface) int
+
+// commitStores: every store info recorded comes from a store of the map that is NOT transient,
+// under that store's own key name, with the commit id that store returned; the commit info
+// carries the requested version
+//@ pure cidOf(s Iface) store/types.CommitID
+//@ func commitStores
+//@   props C06,C12
+//@   modifies all
+//@   logs csN == old(csN) + 1
+//@   logs csVersion == version
+//@   logs csInfos == result.StoreInfos
+//@   ensures [version] result.Version == version
+//@   ensures [no-transient-infos] forall j int :: 0 <= j && j < len(result.StoreInfos) ==> (exists k Iface :: storeMap[k] != nil && result.StoreInfos[j].Name == skName(k) && stType(storeMap[k]) != 3 && result.StoreInfos[j].Core.CommitID == cidOf(storeMap[k]))
+//@   loop 0 invariant forall j int :: 0 <= j && j < len(storeInfos) ==> (exists k Iface :: storeMap[k] != nil && storeInfos[j].Name == skName(k) && stType(storeMap[k]) != 3 && storeInfos[j].Core.CommitID == cidOf(storeMap[k]))
+
+// call bookkeeping
+//@ ghost csN int
+//@ ghost csVersion int
+//@ ghost csInfos []StoreInfo
+//@ ghost chN int
+//@ ghost chInfos []StoreInfo
+//@ ghost chResult []byte
+
+//@ func (StoreInfo).Hash
+//@   trusted tmhash (SHA-256) of the store's commit hash (external hash library): 32 fresh bytes, a function of that hash
+//@   pure_fn
+//@   ensures result != nil && len(result) == 32
+
+// the multistore hash is computed over exactly the store infos of the commit info (one map entry per info, keyed by name)
+//@ func (*CommitInfo).Hash
+//@   props C06,C12
+//@   modifies heap
+//@   logs chN == old(chN) + 1
+//@   logs chInfos == old(ci.StoreInfos)
+//@   logs chResult == result
+//@   loop 0 invariant 0 - 1 <= rangeindex && rangeindex < len(ci.StoreInfos) && ci.StoreInfos == old(ci.StoreInfos)
+
+// Commit: the new commit id has the next version, its hash is the hash of exactly the infos
+// commitStores produced for that version (transient stores excluded there), and it becomes the last commit id
+//@ func (*Store).Commit
+//@   props C06,C12
+//@   modifies all
+//@   ensures [next-version] result.Version == old(rs.lastCommitID.Version) + 1
+//@   ensures [infos-of-this-commit] csN == old(csN) + 1 && csVersion == result.Version && chInfos == csInfos && result.Hash == chResult
+//@   ensures [remembered] rs.lastCommitID == result
